@@ -35,9 +35,17 @@ def via_builder(prog, seed=None, native=None):
     class Unresolvable(Exception):
         pass
 
+    last_stmt = {}
+    # one circuit uses either numpy numbers or the no_duplicate flag: the builder compares expressions with ==, which a
+    # numpy scalar next to a nested expression turns into an array
+    use_numpy = seed is not None and rng.random() < 0.5
+    use_nd = seed is not None and not use_numpy
+
     def num(x):
         """A number as a user's computation may deliver it: a numpy scalar of the same value."""
-        if seed is None or isinstance(x, bool) or not isinstance(x, (int, float)) or rng.random() > 0.2:
+        if not use_numpy:
+            return x
+        if seed is None or isinstance(x, bool) or not isinstance(x, (int, float)) or rng.random() > 0.35:
             return x
         import numpy as np
 
@@ -110,10 +118,15 @@ def via_builder(prog, seed=None, native=None):
 
     def emit(bb, s, params, must):
         k = s[0]
+        if k != "gate":
+            last_stmt[id(bb)] = s
         if k == "gate":
-            args = [obj_arg(a, params, must) for a in s[2:]]
             # no_duplicate=True only drops a gate equal to the one right before it: harmless whenever that one differs
-            nd = seed is not None and rng.random() < 0.3 and bb.expression[-1] != ("gate", s[1], *args)
+            # (decided on the model statements; numbers stay plain Python numbers in such a call, because the builder
+            # compares the expressions with ==, which numpy scalars turn into an array)
+            nd = use_nd and rng.random() < 0.3 and last_stmt.get(id(bb)) != s
+            last_stmt[id(bb)] = s
+            args = [obj_arg(a, params, must) for a in s[2:]]
             if nd:
                 choices.append("no-duplicate-flag")
                 bb.gate(s[1], *args, no_duplicate=True)
